@@ -28,6 +28,18 @@ theorem limit_xor_fetch (useFetch : Bool) (r : Range) (ob dist : Bool) :
 theorem fetch_dialects : ∀ d : Dialect, d.use_fetch = true ↔ d = .mssql := by
   intro d; cases d <;> decide
 
+/-- the word DISTINCT follows a set operator only on a dialect whose flag says the engine knows that spelling, and only for the
+de-duplicating form; the duplicate-keeping form is always ALL -/
+theorem set_quantifier_rules (d : Dialect) (distinct : Bool) :
+    (setQuantifierFor d distinct = .distinct → d.set_ops_distinct = true ∧ distinct = true) ∧
+    (distinct = false → setQuantifierFor d distinct = .all) ∧
+    (distinct = true → d.set_ops_distinct = false → setQuantifierFor d distinct = .bare) := by
+  cases distinct <;> cases h : d.set_ops_distinct <;> simp [setQuantifierFor, setQuantifier, h]
+
+/-- exactly these dialects do not know `UNION DISTINCT` (table regenerated from dialect.rs) -/
+theorem dialects_without_union_distinct : ∀ d : Dialect, d.set_ops_distinct = false ↔ (d = .sqlite ∨ d = .mssql ∨ d = .snowflake) := by
+  intro d; cases d <;> decide
+
 /-- T2c: whatever the dialect, the emitted clauses select the rows of the range -/
 theorem clauses_select_range (useFetch : Bool) (r : Range) (ob dist : Bool) (l : List α) :
     select (emit useFetch r ob dist) l = takeR r.1 r.2 l := by
